@@ -42,10 +42,17 @@ def run_case(case):
     d, lmin, lmax, boundary = c["d"], c["lmin"], c["lmax"], c["boundary"]
     a, b = np.array(c["a"], dtype=float), np.array(c["b"], dtype=float)
     key = {"boundary": boundary}
+    # "boundary points off" handed over in other legal spellings: a numpy bool, the integer 0, or the library's own round trip
+    flag_kind = c.get("flag", "bool")
+    if flag_kind != "bool":
+        key["flag"] = flag_kind
     fails = []
 
     def combi_for(comps, n):
-        grid = TrapezoidalGrid(a, b, boundary=boundary)
+        flag = {"bool": boundary, "numpy_bool": np.bool_(boundary), "int": int(boundary), "roundtrip": boundary}[flag_kind]
+        grid = TrapezoidalGrid(a, b, boundary=flag)
+        if flag_kind == "roundtrip":
+            grid.set_boundaries(grid.get_boundaries())
         f = CustomFunction(comps, output_length=n)
         op = Integration(f, grid=grid, dim=d)
         sc = StandardCombi(a, b, operation=op, print_output=False, print_level=1000, log_level=1000)
@@ -203,6 +210,9 @@ def cases(tier):
                         continue
                     for boundary in (True, False):
                         out.append({"config": {"d": d, "lmin": lmin, "lmax": lmax, "a": a, "b": b, "boundary": boundary}})
+                        if d <= 2 and lmax <= 3 and bi in (0, 2):
+                            for flag in ("numpy_bool", "int", "roundtrip"):
+                                out.append({"config": {"d": d, "lmin": lmin, "lmax": lmax, "a": a, "b": b, "boundary": boundary, "flag": flag}})
     # object reuse: every ordered pair (and some triples) of level ranges on ONE StandardCombi object
     pairs = [(1, 1), (1, 2), (1, 3), (2, 3), (2, 4), (3, 3), (3, 4)]
     for d, box in ((2, ([-1.0, 0.5], [2.0, 3.0])), (1, ([0.0], [1.0])), (3, ([0.0] * 3, [1.0] * 3))):
